@@ -352,7 +352,10 @@ func (self *Compiler) compileExpr(node ast.AnalyzedExpression) {
 			self.insert(newOneStringInstruction(opCodeSet, name), node.Range)
 			self.insert(newValueInstruction(Opcode_Copy_Push, *value.NewValueNull()), node.Range)
 		} else {
+			// The assignment needs the storage location of its target, not the value which is stored there.
+			self.place = true
 			self.compileExpr(node.Lhs)
+			self.place = false
 
 			if node.Operator != pAst.StdAssignOperatorKind {
 				self.insert(newPrimitiveInstruction(Opcode_Duplicate), node.Range)
@@ -370,11 +373,16 @@ func (self *Compiler) compileExpr(node ast.AnalyzedExpression) {
 		self.compileCallExpr(node)
 	case ast.IndexExpressionKind:
 		node := node.(ast.AnalyzedIndexExpression)
+		place := self.takePlace()
 		self.compileExpr(node.Base)
 		self.compileOperand(node.Index, 1)
 		self.insert(newPrimitiveInstruction(Opcode_Index), node.Range)
+		if !place {
+			self.insert(newPrimitiveInstruction(Opcode_Load), node.Range)
+		}
 	case ast.MemberExpressionKind:
 		node := node.(ast.AnalyzedMemberExpression)
+		place := self.takePlace()
 		self.compileExpr(node.Base)
 
 		opcode := Opcode_Nop
@@ -393,6 +401,9 @@ func (self *Compiler) compileExpr(node ast.AnalyzedExpression) {
 		self.insert(newOneStringInstruction(opcode, node.Member.Ident()), node.Range)
 		if additionalInst != nil {
 			self.insert(additionalInst, node.Range)
+		}
+		if !place {
+			self.insert(newPrimitiveInstruction(Opcode_Load), node.Range)
 		}
 
 	case ast.CastExpressionKind:
